@@ -15,9 +15,9 @@ for d in sorted(os.listdir('seeded')):
 PY
 run_one() {
   id=$1; c=$2
-  out=$(VERIF_WORKERS=4 tools/mutant.sh seeded/$id/patch.diff $c quick 2>&1 | tail -3)
+  out=$(VERIF_WORKERS=${SEED_WORKERS:-4} tools/mutant.sh seeded/$id/patch.diff $c quick 2>&1 | tail -3)
   rc=$(echo "$out" | grep -o "exit=[0-9]*" | tail -1)
   if [ "$rc" = "exit=1" ]; then echo "$id $c caught"; else echo "$id $c MISSED ($rc)"; fi
 }
 export -f run_one
-xargs -P 4 -L 1 bash -c 'run_one $0 $1' < /var/tmp/seeds_jobs.txt
+xargs -P ${PAR:-4} -L 1 bash -c 'run_one $0 $1' < /var/tmp/seeds_jobs.txt
